@@ -1119,3 +1119,12 @@ pub mod openpath {
         nomt.page_cache.shard_count()
     }
 }
+
+// H21 — the beatree `Tree` object (staging maps, sync controller, read transactions, branch index and its
+// reconstruction) driven step by step on a scratch directory; the read-path functions on raw pages.
+pub mod beatree_tree {
+    pub use crate::beatree::verif_tree::{
+        find_key_pos, index_ops, leaf_get, reconstruct, search_branch, tracked_of_file, IndexDump,
+        IterItem, RtxSim, StagingDump, TreeSim,
+    };
+}
